@@ -14,6 +14,10 @@
    without padding; 1..8 streams, keep-alive sequences; slow readers, small windows, paced writers,
    aborts) and records per-observer events; TLC validates the trace against Trace_Relay with the open
    deviations on, then with each reproduced deviation off (must then be rejected exactly there).
+   Full-duplex schedules (rig::make_duplex_plan): position-coded bodies in both directions at once on one HTTP/2
+   connection whose peer stops reading its socket for a while (the h2c backend answers early and reads the upload
+   late / the HTTP/2 client does not read a big download while it uploads on another stream): sozu's write blocks
+   inside a DATA frame while the control frames it owes (WINDOW_UPDATE, PING ACK) queue up behind it.
 5. I->S white-box: every distinct projection of the mux_ready_exit snapshots is validated against
    Relay!ParkRecOK by Trace_RelayPark.
 6. Canaries: a skipped byte in the trace and a parked writer without WRITABLE in the snapshots must be
@@ -25,6 +29,7 @@ import os
 import re
 
 import vlib
+from props import h2wire
 
 PID = "C01"
 OPEN_CLASS = {"HolBlocking": ("h2-head-of-line-deadlock", "park_hol"), "LoopBudgetKill": ("loop-budget-kills-session", "budget_kill")}
@@ -45,6 +50,7 @@ CONSTANTS
   W0 = %(w0)d
   Ws = %(ws)s
   Aborts = %(aborts)s
+  EarlyResp = %(early)s
   Deviations = %(dev)s
 %(extra)s
 CHECK_DEADLOCK FALSE
@@ -61,11 +67,11 @@ def tla_set(xs):
 
 
 def cfg(wd, name, spec="Spec", n=1, front="h1", back="h1", req=(2, 0), resp=(3, 0), close=(), b=1, k=2, w0=2, ws=(1, 2),
-        aborts=False, dev=(), extra=SAFE):
+        aborts=False, dev=(), extra=SAFE, early=False):
     path = os.path.join(wd, name)
     with open(path, "w") as f:
         f.write(CFG % dict(spec=spec, n=n, front=front, back=back, req1=req[0], req2=req[1], resp1=resp[0], resp2=resp[1],
-                           close=tla_set(close), b=b, k=k, w0=w0, ws=tla_set(ws), aborts="TRUE" if aborts else "FALSE",
+                           close=tla_set(close), b=b, k=k, w0=w0, ws=tla_set(ws), aborts="TRUE" if aborts else "FALSE", early="TRUE" if early else "FALSE",
                            dev=tla_set(dev), extra=extra))
     return path
 
@@ -90,6 +96,13 @@ def mc_jobs(wd, thorough):
     else:
         jobs.append(("n2_h2h2", cfg(wd, "mc_n2_h2h2.cfg", n=2, front="h2", back="h2", req=(2, 0), resp=(0, 2), b=1, k=2, w0=1)))
         jobs.append(("n2_h2h1", cfg(wd, "mc_n2_h2h1.cfg", n=2, front="h2", back="h1", req=(1, 0), resp=(0, 2), b=1, k=2, w0=1)))
+    # full duplex on one stream: the backend answers while the request is still arriving (EarlyResp)
+    jobs.append(("early_h1h2", cfg(wd, "mc_early_h1h2.cfg", front="h1", back="h2", req=(2, 0), resp=(2, 0), b=1, k=2, w0=1, early=True)))
+    jobs.append(("early_h2h2", cfg(wd, "mc_early_h2h2.cfg", front="h2", back="h2", req=(2, 0), resp=(2, 0), b=1, k=2, w0=1, early=True)))
+    if thorough:
+        jobs.append(("early_h2h2_live", cfg(wd, "mc_early_h2h2_live.cfg", spec="FairSpec", front="h2", back="h2", req=(2, 0), resp=(2, 0), b=1, k=2, w0=1, early=True, extra=LIVE)))
+        jobs.append(("early_h2h1_live", cfg(wd, "mc_early_h2h1_live.cfg", spec="FairSpec", front="h2", back="h1", req=(2, 0), resp=(2, 0), b=1, k=2, w0=1, early=True, extra=LIVE)))
+        jobs.append(("early_h1h2_big", cfg(wd, "mc_early_h1h2_big.cfg", front="h1", back="h2", req=(3, 0), resp=(3, 0), b=1, k=2, w0=2, early=True)))
     # senders that give up
     jobs.append(("aborts", cfg(wd, "mc_aborts.cfg", front="h2", back="h1", req=(2, 0), resp=(2, 0), b=2, k=1, w0=1, ws=(1,), aborts=True)))
     if thorough:
@@ -235,6 +248,9 @@ def run(tier, replay=None):
             raise vlib.ToolError("deviation %s does not violate any property of Relay.tla in the model" % d)
         vlib.log("deviation %s: TLC counterexample to %s as expected" % (d, rd["violated"]))
 
+    # ---- 2b. the writer below the frames (spec/H2Wire.tla): whole frames only ------------------------------
+    h2wire.check(rep, wd, PID, thorough, deviations=None if thorough else ["WuInsideFrame", "ZeroOverwrites"])
+
     # ---- 3. S->I ---------------------------------------------------------------------------------------
     beh, n_beh = gen_behaviours(wd, thorough, rep)
     out = vlib.run_harness(bins["replay_relay"], ["--seed", str(seed), "--units", "1,1000,16384,20000" if thorough else "1000,16384",
@@ -263,7 +279,7 @@ def run(tier, replay=None):
     parks = os.path.join(wd, "parks.ndjson")
     runs = 700 if thorough else 110
     dout = vlib.run_harness(bins["drive_relay"], ["--seed", str(seed), "--runs", str(runs), "--lanes", "6" if thorough else "5",
-                                                  "--big", "1" if thorough else "0", "--out", trace, "--plans-out", plans,
+                                                  "--big", "1" if thorough else "0", "--duplex", "40" if thorough else "8", "--out", trace, "--plans-out", plans,
                                                   "--parks-out", parks, "--extra-plans", os.path.join(vlib.ROOT, "assets", "c01_known.plans")],
                            timeout=3400)
     ds = [o for o in dout if o.get("kind") == "summary"]
@@ -284,6 +300,9 @@ def run(tier, replay=None):
             ds["inconclusive"], ds["runs"] + ds["inconclusive"]))
     vlib.log("drive_relay: %d runs (%s), %d messages, %d events, %.1f MB relayed, %d inconclusive, %.1fs" % (
         ds["runs"], ds["by_kind"], ds["messages"], ds["events"], ds["bytes"] / 1e6, ds["inconclusive"], ds["wall_s"]))
+    half = (ds.get("parks", {}).get("half_frame_wu_pending", 0), ds.get("parks", {}).get("half_frame_zero_deferred", 0))
+    vlib.log("full-duplex schedules: %d park snapshots with a half-written stream frame and WINDOW_UPDATEs queued behind it, %d with an "
+             "answer deferred in the zero buffer" % half)
 
     plan_of = {}
     with open(plans) as f:
@@ -312,7 +331,7 @@ def run(tier, replay=None):
         path = rep.save_replay("run_%s.plans" % run_id, plan_of.get(run_id, ""))
         rep.save_replay("run_%s.ndjson" % run_id, "".join(json.dumps(x) + "\n" for h, e in bad for x in [h] + e)
                         + json.dumps({"ev": "msg", "run": -1, "s": 0, "d": "req", "ns": 0, "nr": 0, "companion_aborted": False,
-                                      "park_hol": False, "budget_kill": False, "pair": ""}) + "\n")
+                                      "park_hol": False, "budget_kill": False, "no_aborts": False, "pair": ""}) + "\n")
         rep.violation(klass, "run %s not explained by Relay.tla (%s of %s lines): %s" % (run_id, tv["consumed"], tv["total"], ev[:300]),
                       plan_of.get(run_id, ""), name="run_%s.plans" % run_id)
         cur = [(h, e) for h, e in cur if h["run"] != run_id]
@@ -396,6 +415,13 @@ def run(tier, replay=None):
                     raise vlib.ToolError("canary: a parked writer without WRITABLE was accepted by Trace_RelayPark")
                 rep.extra["park_canary_rejected"] = True
                 break
+
+    # vacuity guard of the full-duplex schedules (never in the way of a violation)
+    if not rep.violations and half[0] == 0:
+        raise vlib.ToolError("the full-duplex schedules never blocked a write inside a frame with WINDOW_UPDATEs pending "
+                             "(mux_ready_exit hook: ew >= 0 and wu > 0 never seen): machine too slow / socket buffers changed?")
+    rep.extra["half_written_frame_with_pending_window_updates_snapshots"] = half[0]
+    rep.extra["half_written_frame_with_deferred_zero_answer_snapshots"] = half[1]
 
     # ---- evidence ----------------------------------------------------------------------------------------------
     rep.cov["traces_validated_against_impl"] = rs["executed"] + accepted_runs + (pk.get("written", 0) if pk else 0)
